@@ -121,6 +121,7 @@ func main() {
 	switch prop {
 	case "C05":
 		runC05(f, res, m)
+		runSrcSegments(f, res, m) // c05src.go: the translated segments of cache.go against the implementation
 	case "C12":
 		runC12(f, res, m)
 	case "C11":
